@@ -352,3 +352,56 @@ theorem inv_crun {cfg : Cfg} {reg0 : Reg} {names : Nat → Name} {c : Conf}
   | cons t ts ih => exact ih (inv_cstep h t)
 
 end ScVerif.C12
+
+namespace ScVerif.C12
+
+/-- Number of atomic steps a thread still has to take at most. -/
+def PC.rank : PC → Nat
+  | .lookup => 5
+  | .fallback => 4
+  | .factory => 3
+  | .insert _ => 2
+  | .notify _ => 1
+  | .done _ => 0
+
+theorem cstep_other (cfg : Cfg) (c : Conf) (t i : Nat) (h : i ≠ t) : (cstep cfg c t).th i = c.th i := by
+  unfold cstep
+  simp only
+  split
+  · split <;> simp [Conf.setPc, h]
+  · split <;> split <;> simp [Conf.setPc, h]
+  · split <;> split <;> simp [Conf.setPc, h]
+  · split <;> simp [Conf.setPc, h]
+  · simp [Conf.setPc, h]
+  · rfl
+
+theorem cstep_rank_self (cfg : Cfg) (c : Conf) (t : Nat) :
+    ((cstep cfg c t).th t).pc.rank ≤ (c.th t).pc.rank - 1 := by
+  unfold cstep
+  simp only
+  split
+  · next h => rw [h]; split <;> simp [Conf.setPc, PC.rank]
+  · next h => rw [h]; split <;> split <;> simp [Conf.setPc, PC.rank]
+  · next h => rw [h]; split <;> split <;> simp [Conf.setPc, PC.rank]
+  · next h => rw [h]; split <;> simp [Conf.setPc, PC.rank]
+  · next h => rw [h]; simp [Conf.setPc, PC.rank]
+  · next h => rw [h]; simp [PC.rank]
+
+theorem crun_rank (cfg : Cfg) (c : Conf) (sched : List Nat) (t : Nat) :
+    ((crun cfg c sched).th t).pc.rank ≤ (c.th t).pc.rank - sched.count t := by
+  induction sched generalizing c with
+  | nil => simp [crun]
+  | cons u us ih =>
+    simp only [crun]
+    have := ih (cstep cfg c u)
+    by_cases hu : u = t
+    · subst hu
+      have h1 := cstep_rank_self cfg c u
+      simp only [List.count_cons_self]
+      omega
+    · have h1 : (cstep cfg c u).th t = c.th t := cstep_other cfg c u t (fun e => hu e.symm)
+      rw [h1] at this
+      simp only [List.count_cons, beq_iff_eq, hu, if_false, Nat.add_zero]
+      exact this
+
+end ScVerif.C12
